@@ -300,4 +300,82 @@ theorem renderSnippet_ok (env : Env) (utf8 : Bool) (f : Frame) (h : FileOk f) :
   obtain ⟨sn, hsn⟩ := frameSnippet_ok env utf8 f C20.snippetBefore C20.snippetAfter h
   simp [renderSnippet, hsn, bind, Except.bind, pure, Except.pure]
 
+/-! ## the hypotheses of `render_fails_iff` are decidable -/
+
+theorem hasEndB_iff (toks : List Tok) : hasEndB toks = true ↔ HasEnd toks := by
+  simp only [hasEndB, HasEnd, List.any_eq_true, Bool.and_eq_true, bne_iff_ne, ne_eq, beq_iff_eq]
+
+theorem fileOkB_iff (f : Frame) : fileOkB f = true ↔ FileOk f := by
+  unfold fileOkB FileOk
+  cases f.fileToks with
+  | ok toks => simp
+  | error e => simp
+
+theorem lineOkB_iff (f : Frame) : lineOkB f = true ↔ LineOk f := by
+  unfold lineOkB LineOk
+  cases f.lineToks with
+  | ok toks => simp [hasEndB_iff]
+  | error e => simp
+
+/-- `framesOkB` (Model/Trace, evaluated by the driver on the real tokenizer's outcomes) decides the
+hypothesis of `render_fails_iff` about the frames -/
+theorem framesOkB_iff (fs : List Frame) : framesOkB fs = true ↔ ∀ f ∈ fs, FileOk f ∧ LineOk f := by
+  simp only [framesOkB, List.all_eq_true, Bool.and_eq_true, fileOkB_iff, lineOkB_iff]
+
+/-! ## the port of crashtest's `compact` only hands back frames it was given -/
+
+theorem mem_slice {α : Type} {l : List α} {a b : Nat} {x : α} (h : x ∈ slice l a b) : x ∈ l :=
+  List.mem_of_mem_drop (List.mem_of_mem_take h)
+
+theorem compactGo_sound (all : List Frame) : ∀ (fuel i : Nat) (colls : List Coll) (cur : Coll),
+    (∀ c ∈ colls, ∀ f ∈ c.frames, f ∈ all) → (∀ f ∈ cur.frames, f ∈ all) →
+    ∀ c ∈ compactGo all fuel i colls cur, ∀ f ∈ c.frames, f ∈ all := by
+  intro fuel
+  induction fuel with
+  | zero =>
+    intro i colls cur hc hcur c hm f hf
+    simp only [compactGo, List.mem_append, List.mem_singleton] at hm
+    rcases hm with hm | rfl
+    · exact hc c hm f hf
+    · exact hcur f hf
+  | succ fuel ih =>
+    intro i colls cur hc hcur
+    have hfin : ∀ c ∈ colls ++ [cur], ∀ f ∈ c.frames, f ∈ all := by
+      intro c hm f hf
+      simp only [List.mem_append, List.mem_singleton] at hm
+      rcases hm with hm | rfl
+      · exact hc c hm f hf
+      · exact hcur f hf
+    unfold compactGo
+    split
+    · split
+      · exact hfin
+      · rename_i frame hfr
+        have hframe : frame ∈ all := List.mem_of_getElem? hfr
+        split
+        · rename_i d0 ds _
+          split
+          · exact ih _ colls _ hc hcur
+          · exact ih _ _ _ hfin (fun f hf => mem_slice hf)
+        · by_cases hrep : cur.count > 1
+          · simp only [hrep, if_true]
+            apply ih _ _ _ hfin
+            intro f hf
+            simp only [List.nil_append, List.mem_singleton] at hf
+            exact hf ▸ hframe
+          · simp only [hrep, if_false]
+            apply ih _ _ _ hc
+            intro f hf
+            simp only [List.mem_append, List.mem_singleton] at hf
+            rcases hf with hf | rfl
+            · exact hcur f hf
+            · exact hframe
+    · exact hfin
+
+/-- the contract `CompactSound` holds for the executable port `compact` (the one the driver runs and the
+correspondence compares with crashtest's on every case) -/
+theorem compact_sound : CompactSound compact := by
+  intro fs c hc f hf
+  exact compactGo_sound fs _ _ _ _ (by simp) (by simp) c hc f hf
+
 end Clikit.Trace
